@@ -719,6 +719,11 @@ func (p *CaseForm) typecheckForm(gammaNameTypesCtx NamesTypesCtx, providerShadow
 			// Copy gamma so that each branch has its own version
 			newGammaNameTypesCtx := copyContext(gammaNameTypesCtx)
 
+			// The payload names the provider in the branch: it cannot shadow a name that is still in the context
+			if nameTypeExists(newGammaNameTypesCtx, curBranchForm.payload_c.Ident) {
+				return TypeErrorf("variable name '%s' is already defined. Use unique names in %s", curBranchForm.payload_c.String(), curBranchForm.StringShort())
+			}
+
 			continuationError := curBranchForm.continuation_e.typecheckForm(newGammaNameTypesCtx, &curBranchForm.payload_c, expectedBranchType.SessionType, labelledTypesEnv, sigma, globalEnv)
 
 			if continuationError != nil {
@@ -776,6 +781,10 @@ func (p *CaseForm) typecheckForm(gammaNameTypesCtx NamesTypesCtx, providerShadow
 			// curBranchForm.payload_c cannot exist in gammaNameTypesCtx
 			if nameTypeExists(newGammaNameTypesCtx, curBranchForm.payload_c.Ident) {
 				return TypeErrorf("variable name '%s' is already defined. Use unique names in %s", curBranchForm.payload_c.String(), curBranchForm.StringShort())
+			}
+			if isProvider(curBranchForm.payload_c, providerShadowName) {
+				// Unwanted reference to self
+				return TypeErrorf("variable name '%s' should not refer to self", curBranchForm.payload_c.String())
 			}
 			newGammaNameTypesCtx[curBranchForm.payload_c.Ident] = NamesType{Type: expectedBranchType.SessionType}
 
